@@ -27,7 +27,7 @@ RULE = ("Hypothesis: matrices (1-6)x(1-6) incl. 1xN / Nx1 of classes small-int, 
         "randomized_svd (n_oversamples 0-5, n_iter 0-3, integer random_state from the case), a callable wrapping "
         "numpy.linalg.svd, and tl.truncated_svd directly; flip_sign on/off, u_based_flip_sign both; non_negative in "
         "{True,'nndsvd','nndsvda'} on non-negative, signed, negative-mean and rank-deficient non-negative matrices; "
-        "int64-dtype inputs in their own sub-checks. Oracle: numpy.linalg.svd reference spectrum; shapes U:(m,min(k,m)) "
+        "int64-dtype inputs in their own sub-checks; complex128 matrices (Gaussian, Gaussian-integer, rank-deficient) for truncated / randomized (oversampling >= max dim) with the clauses stated with conjugate transposes and the deciding entry real positive. Oracle: numpy.linalg.svd reference spectrum; shapes U:(m,min(k,m)) "
         "S:(min(k,m,n),) V:(min(k,n),n) with k = n_eigenvecs clamped to max(shape); S>=0 non-increasing and equal to the "
         "leading reference values; U^T U = I, V V^T = I; ||M - U_r diag(S) V_r||_F = ||sigma_ref[r:]|| in both directions; "
         "tolerances 1e-9 (symeig: max(1e-6, 50*eps*(sigma_1/smallest above-gap sigma)^2)) relative to sigma_1. randomized_svd is held to the exactness clauses only when "
@@ -454,6 +454,72 @@ def _case(draw, method, classes=SIGNED, nn=None, force_flip=None):
     return case
 
 
+# ----------------------------------------------------------------------------
+# complex input (parafac's complex path feeds complex unfoldings to the SVD front end)
+# ----------------------------------------------------------------------------
+@st.composite
+def _complex_case(draw):
+    m, n = draw(st.integers(1, 6)), draw(st.integers(1, 6))
+    method = draw(st.sampled_from(["truncated_svd", "truncated_svd", "randomized_svd"]))
+    c = {"m": m, "n": n, "seed": draw(st.integers(0, 10**6)), "kindc": draw(st.sampled_from(["normal", "gauss_int", "lowrank"])),
+         "method": method, "k": draw(st.one_of(st.none(), st.integers(1, max(m, n) + 1))), "ubased": draw(st.booleans())}
+    if method == "randomized_svd":
+        c.update(os=max(m, n), n_iter=draw(st.integers(1, 3)), rs=draw(st.integers(0, 1000)))   # oversampling covers the rank
+    return c
+
+
+def _complex_matrix(c):
+    rng = np.random.RandomState(c["seed"])
+    m, n = c["m"], c["n"]
+    if c["kindc"] == "normal":
+        return rng.standard_normal((m, n)) + 1j * rng.standard_normal((m, n))
+    if c["kindc"] == "gauss_int":
+        return rng.randint(-3, 4, (m, n)) + 1j * rng.randint(-3, 4, (m, n))
+    r = max(1, min(m, n) - 1)
+    A = rng.standard_normal((m, r)) + 1j * rng.standard_normal((m, r))
+    B = rng.standard_normal((r, n)) + 1j * rng.standard_normal((r, n))
+    return A @ B
+
+
+def o_complex(case):
+    M = _complex_matrix(case).astype(np.complex128)
+    m, n = M.shape
+    sig = np.linalg.svd(M, compute_uv=False)
+    s1 = max(float(sig[0]), 1e-300)
+    base = dict(case, flip=False)
+    U0, S0, V0 = [as_array(x, "complex/triple") for x in _run(base, tl.tensor(M))]
+    U1, S1, V1 = [as_array(x, "complex/triple") for x in _run(dict(case, flip=True), tl.tensor(M))]
+    r = S1.shape[0]
+    check(U1.shape == U0.shape and V1.shape == V0.shape and S1.shape == S0.shape, "complex/flip/shapes",
+          lambda: f"{U1.shape},{S1.shape},{V1.shape} vs {U0.shape},{S0.shape},{V0.shape}")
+    P0 = (U0[:, :r] * S0) @ V0[:r]
+    P1 = (U1[:, :r] * S1) @ V1[:r]
+    d = float(np.max(np.abs(P1 - P0))) if P0.size else 0.0
+    check(d <= 1e-9 * s1, "complex/flip/product_unchanged", lambda: f"product changed by {d:.3e} (sigma_1 {s1:.3e})")
+    # the product is a best rank-r approximation (both methods are exact here: oversampling covers the matrix)
+    err = float(np.linalg.norm(M - P1))
+    tail = float(np.linalg.norm(sig[r:]))
+    check(abs(err - tail) <= 1e-9 * s1, "complex/recon", lambda: f"||M - U S V|| = {err:.6e}, discarded tail {tail:.6e}")
+    d = float(np.max(np.abs(S1 - sig[:r]))) if r else 0.0
+    check(d <= 1e-9 * s1 and bool(np.all(np.imag(S1) == 0)), "complex/sigma", lambda: f"sigma off by {d:.3e}")
+    gu = U1[:, :r].conj().T @ U1[:, :r]
+    gv = V1[:r] @ V1[:r].conj().T
+    d = max(float(np.max(np.abs(gu - np.eye(r)))), float(np.max(np.abs(gv - np.eye(r))))) if r else 0.0
+    check(d <= 1e-9, "complex/orth", lambda: f"U^H U / V V^H off identity by {d:.3e}")
+    # sign (phase) rule: the largest-magnitude entry of each deciding vector is real and positive
+    dec = U1 if case["ubased"] else V1.T
+    for j in range(dec.shape[1]):
+        a = np.abs(dec[:, j])
+        o = np.sort(a)[::-1]
+        if a.size == 0 or o[0] == 0 or (a.size > 1 and o[0] - o[1] <= TIE * o[0]):
+            continue
+        z = dec[int(np.argmax(a)), j]
+        check(z.real > 0 and abs(z.imag) <= 1e-9 * abs(z), "complex/flip/deciding_entry_positive",
+              lambda: f"deciding entry of component {j} is {z!r}")
+    return {"nontrivial": min(m, n) >= 2, "labels": [f"method={case['method']}", f"kind={case['kindc']}", f"ubased={case['ubased']}",
+                                                      "wide" if n > m else ("tall" if m > n else "square")]}
+
+
 def subchecks(tier):
     subs = []
     short = {"truncated_svd": "truncated", "symeig_svd": "symeig", "randomized_svd": "randomized",
@@ -476,6 +542,8 @@ def subchecks(tier):
     for method in ("truncated_svd", "symeig_svd", "randomized_svd"):
         subs.append(SubCheck(f"int_dtype/{short[method]}", _case(method, classes=INT_CLASSES), o_intdtype,
                              quick=400, thorough=3000))
+    # complex128 input (truncated / randomized; symeig_svd forms M M^T without conjugation and is not a complex method)
+    subs.append(SubCheck("complex/flip_recon", _complex_case(), o_complex, quick=400, thorough=3000))
     return subs
 
 
